@@ -39,6 +39,7 @@ type simConn struct {
 	mu            sync.Mutex
 	failWriteAt   int // >0: the n-th Write from now on this side fails (fault injection)
 	writes        int
+	wsem          chan struct{}
 }
 
 func (c *simConn) LocalAddr() net.Addr  { return c.local }
@@ -54,6 +55,18 @@ func (c *simConn) Write(b []byte) (int, error) {
 	if fail {
 		return 0, errors.New("simConn: injected write failure")
 	}
+	// one writer at a time, the others wait on a CHANNEL: net.Pipe serialises writers with a sync.Mutex, and a
+	// goroutine waiting for a mutex is not durably blocked - with a remote that has stopped reading (the first
+	// writer blocked inside the pipe, a KEEPALIVE or NOTIFICATION writer behind it) the bubble would never be
+	// quiescent again
+	c.mu.Lock()
+	if c.wsem == nil {
+		c.wsem = make(chan struct{}, 1)
+	}
+	sem := c.wsem
+	c.mu.Unlock()
+	sem <- struct{}{}
+	defer func() { <-sem }()
 	return c.Conn.Write(b)
 }
 
